@@ -575,8 +575,51 @@ def s9(rep, w, prop='C06'):
     for p_, loc in sorted(writers.items()):
         if p_ in ctor:
             continue
+        if _repoints_upvalues(w, c.fns[p_], storage, ST):
+            r.ok('%s moves the storage and then re-points every open upvalue of the fiber' % p_.replace('yarel::', ''))
+            continue
         r.bad('%s replaces the storage of a Stack' % p_.replace('yarel::', ''), '%s assigns the storage block of a Stack that is already in use: open upvalues (raw addresses of captured variables) and the '
               'cached stack pointers keep pointing into the block that was replaced' % p_, loc)
+
+
+def _repoints_upvalues(w, g, storage, ST):
+    """after every assignment of the storage, every path to a return of g walks the fiber's open-upvalue list (reads the list
+    head), and the walk stores a fresh Open address into each upvalue it visits (directly or through a helper of the crate)"""
+    c = w.yarel
+    UPS = 'yarel::object::ObjUpvalueState'
+
+    def writes_open(h):
+        for b in h.blocks:
+            for s_ in b['s']:
+                rr = s_.get('r') or {}
+                d = s_.get('d') or {}
+                if rr.get('rv') == 'agg' and rr.get('adt') == UPS and rr.get('v') == 'Open':
+                    return True
+        return False
+    heads, stores, writes = set(), set(), set()
+    for bi in g.normal_blocks():
+        b = g.blocks[bi]
+        for s_ in b['s']:
+            rr = s_.get('r') or {}
+            d = s_.get('d') or {}
+            for pl in [rr.get('p')] + [op_place(rr.get(k) or {}) for k in ('o',)]:
+                if pl and any(isinstance(x, dict) and x.get('n') == 'open_upvalues' for x in pl.get('p') or ()):
+                    heads.add(bi)
+            if rr.get('rv') == 'agg' and rr.get('adt') == UPS and rr.get('v') == 'Open':
+                stores.add(bi)
+            ps = d.get('p') or []
+            if ps and isinstance(ps[-1], dict) and ps[-1].get('n') in storage and c01.base_type_before_last(g, d) == ST:
+                writes.add(bi)
+        t = b['t']
+        if t['t'] == 'call':
+            h = w.fns.get(callee_name(t) or '')
+            if h is not None and h.crate is c and writes_open(h):
+                stores.add(bi)
+    if not (heads and stores and writes):
+        return False
+    # the relocation happens in a loop that starts at the list head
+    looped = any(sb in g.reachable_blocks(s2) for sb in stores for s2 in g.succs()[sb]) and any(sb in g.reachable_blocks(hb) for sb in stores for hb in heads)
+    return looped and all(c01.all_paths_hit(g, wb, heads) for wb in writes)
 
 
 def s10(rep, w, prop='C06'):
